@@ -1,4 +1,136 @@
-import McpModel.Conn.Model
-/-! Property theorems for E1 (C01–C05) — under construction. -/
+import McpModel.Conn.CallInv
+/-!
+# Property theorems for E1 — the jsonrpc2 connection (C01–C05)
+
+All theorems quantify over **every label list** `ls` (every interleaving of every number of callers,
+notifiers, incoming requests, responses in any order with any ids, reader failure, write outcomes
+(ok / broken / rejected / cancelled), context cancellations, Close and Wait calls) executed from the
+initial state `{}` of the model `Conn.step` (one label = one atomic section of conn.go).
+-/
 namespace Conn
+
+/-! ## C01 — every outgoing call completes exactly once, with its own response or an error -/
+
+/-- **retire_at_most_once.** In every reachable state each call's `AsyncCall.retire` has run at most
+once — exactly once iff its outcome is fixed — and the "retire called twice" panic is unreachable. -/
+theorem retire_at_most_once (ls : List Label) (s : St) (h : run {} ls = some s) :
+    s.panicRetire = false ∧
+    ∀ n c, getCall s n = some c → c.retires ≤ 1 ∧ (c.retires = 1 ↔ c.ready.isSome = true) := by
+  have i := cinv_run ls cinv_init h
+  refine ⟨i.nopanic, fun n c hc => ?_⟩
+  have := (i.ok n c hc).retires
+  cases hr : c.ready <;> simp [hr] at this ⊢ <;> omega
+
+/-- **registered_iff_unretired.** The `outgoingCalls` table holds exactly the calls that were registered
+and whose outcome is not fixed yet, each once: removal from the table is the single completion point. -/
+theorem registered_iff_unretired (ls : List Label) (s : St) (h : run {} ls = some s) :
+    s.outCalls.Nodup ∧
+    ∀ n c, getCall s n = some c → (n ∈ s.outCalls ↔ (c.registered = true ∧ c.ready = none)) := by
+  have i := cinv_run ls cinv_init h
+  exact ⟨i.nodup, fun n c hc => (i.ok n c hc).reg⟩
+
+/-- **response_is_own.** If a call completed with a response payload `p`, then the reader took a
+response message carrying *this call's id* and payload `p` off the wire (`respLog` records, at RR,
+every (id, payload) the reader matched); a call never receives the response to a different call, and
+what `call()` returns is that very payload. -/
+theorem response_is_own (ls : List Label) (s : St) (h : run {} ls = some s) :
+    ∀ n c p, getCall s n = some c →
+      (c.ready = some (.resp p) → (n, p) ∈ s.respLog) ∧
+      (c.result = some (.resp p) → c.ready = some (.resp p) ∧ (n, p) ∈ s.respLog) := by
+  have i := cinv_run ls cinv_init h
+  intro n c p hc
+  have o := i.ok n c hc
+  refine ⟨o.own p, fun hr => ?_⟩
+  rcases (o.result _ hr).2 with h1 | ⟨h1, _⟩
+  · exact ⟨h1, o.own p h1⟩
+  · cases h1
+
+/-- **completed_has_outcome.** A call whose `call()` has returned has a fixed outcome (it was retired,
+or it never registered because the connection was shutting down), and what it returned is either
+that outcome or the context's error after the caller's context ended. -/
+theorem completed_has_outcome (ls : List Label) (s : St) (h : run {} ls = some s) :
+    ∀ n c, getCall s n = some c → c.pc = .fin →
+      c.ready.isSome = true ∧ ∃ r, c.result = some r ∧ (c.ready = some r ∨ (r = .err .ctx ∧ c.ctxDone = true)) := by
+  have i := cinv_run ls cinv_init h
+  intro n c hc hf
+  have o := i.ok n c hc
+  obtain ⟨h1, h2⟩ := o.fin hf
+  cases hr : c.result with
+  | none => simp [hr] at h1
+  | some r => exact ⟨h2, r, rfl, (o.result r hr).2⟩
+
+/-- **await_wait_free.** After every label no caller is left blocked in `Await` once its call is ready
+or its context is done: the caller's next step needs nobody else (it has returned, or it is parked
+before its own eager `Retire`). -/
+theorem await_wait_free (s s' : St) (l : Label) (h : step s l = some s') :
+    ∀ n c, getCall s' n = some c → c.pc = .await → c.ready = none ∧ c.ctxDone = false := by
+  simp only [step, Option.map_eq_some_iff] at h
+  obtain ⟨s0, _, rfl⟩ := h
+  intro n c hc hpc
+  have hcalls : (settle s0).calls = s0.calls.map settleCall := by
+    have := congrArg CallView.calls (show callView (settle s0) = callView (settleCalls s0) by simp [settle])
+    simpa [callView, settleCalls] using this
+  simp only [getCall_eq, hcalls, List.getElem?_map] at hc
+  by_cases hn : n = 0
+  · simp [hn] at hc
+  · simp only [hn, if_false] at hc
+    cases h0 : s0.calls[n - 1]? with
+    | none => simp [h0] at hc
+    | some c0 =>
+      simp [h0] at hc; subst hc
+      unfold settleCall at hpc ⊢
+      split at hpc
+      · split at hpc
+        · split at hpc
+          · simp at hpc
+          · split at hpc <;> simp at hpc
+        · split at hpc <;> simp at hpc
+        · rename_i hr
+          split at hpc
+          · simp at hpc
+          · rename_i hctx
+            simp_all
+      · rename_i hne; exact absurd hpc hne
+
+/-- **refused_when_shutting_down.** A call that reaches its registration point (C1) while the
+connection is closing or its reader or writer has failed is completed at once with the
+"client closing" class of error, which `mcp.call` reports as `ErrConnectionClosed`; it is never
+registered and never written. -/
+theorem refused_when_shutting_down (ls : List Label) (s s' : St) (hr : run {} ls = some s)
+    (n : Nat) (c : Call) (hc : getCall s n = some c)
+    (hctx : c.ctxDone = false) (hsd : s.shuttingDown = true) (h : step s (.c1 n) = some s') :
+    ∃ c', getCall s' n = some c' ∧ c'.pc = .fin ∧ c'.result = some (.err .clientClosing) ∧
+      c'.registered = false ∧ s'.outCalls = s.outCalls := by
+  have i := cinv_run ls cinv_init hr
+  have hn := getCall_some_pos hc
+  simp only [step, Option.map_eq_some_iff] at h
+  obtain ⟨s0, h0, rfl⟩ := h
+  simp only [step0, hc] at h0
+  split at h0
+  · cases h0
+  · rename_i hpc
+    have hpc : c.pc = .c1 := by simpa using hpc
+    obtain ⟨hreg, hready⟩ := (i.ok n c hc).fresh hpc
+    cases h0
+    have hc2 : getCall (modCall (tail s) n fun c => { c with pc := .await }) n = some { c with pc := .await } := by
+      rw [getCall_modCall _ _ _ _ hn.1]; simp [hc]
+    have hg := getCall_retireIn _ n n _ (.err .clientClosing) hc2 hready
+    have hf := retireIn_frame _ n _ (.err .clientClosing) hc2 hready
+    simp only [if_true] at hg
+    have hv : callView (settle (retireIn (modCall (tail s) n fun c => { c with pc := .await }) n (.err .clientClosing))) =
+        callView (settleCalls (retireIn (modCall (tail s) n fun c => { c with pc := .await }) n (.err .clientClosing))) := by
+      simp [settle]
+    have hcalls := congrArg CallView.calls hv
+    have hoc := congrArg CallView.outCalls hv
+    simp only [callView, settleCalls] at hcalls hoc
+    refine ⟨settleCall { c with pc := .await, ready := some (.err .clientClosing), retires := c.retires + 1 }, ?_, ?_, ?_, ?_, ?_⟩
+    · simp only [getCall_eq] at hg ⊢
+      have hn0 : n ≠ 0 := by omega
+      simp only [hn0, if_false] at hg ⊢
+      rw [hcalls, List.getElem?_map, hg]; rfl
+    · simp [settleCall, Err.closing, hctx]
+    · simp [settleCall, Err.closing, hctx]
+    · simp [settleCall, Err.closing, hctx, hreg]
+    · rw [hoc, hf.1]; simp [modCall]
+
 end Conn
